@@ -10,8 +10,6 @@ CONSTANTS
   SizeFrom = "pub"
 INVARIANTS
   TypeOK
-  ToolIsDeletable
-  RemovedDeletable
   OnlyDeletions
   ServablePub
   ServableLock
